@@ -745,8 +745,10 @@ def diff_flags(a, b, flags=None):
             and len(a[1][0]) == 2 and isinstance(a[1][0][0], str):
         fa, fb = dict(a[1]), dict(b[1])
         if ka and ka == kb and fa.get("func") == fb.get("func"):
-            # same helper on both sides encloses the difference (the boolop wrapper does not make its operands commands)
-            if _helper_name(a) != "subproc_check_boolop" and a[0] != "Expr":
+            # same helper on both sides encloses the difference.  Only the helper call itself (or the f-string) does:
+            # an expression statement, the boolop wrapper, `and` / `or` / `not` with a command among the operands do not
+            # make their *other* operands commands (`cat --x . y[ 1 ] && ls`: the left operand may be Python to the parser)
+            if (a[0] == "Call" and _helper_name(a) and _helper_name(a) != "subproc_check_boolop") or a[0] == "JoinedStr":
                 flags.add(ka)
         elif ka or kb:
             if ka:
